@@ -38,7 +38,7 @@ def gen_case(rnd):
         if r < .4: hist.append(['set', rnd.choice(names), rnd.randint(-3, 11)])
         elif r < .75:
             sets = [[rnd.choice(names), rnd.randint(-3, 11)] for _ in range(rnd.randint(0, 3))]
-            hist.append(['call', sets, rnd.random() < .2, rnd.randint(0, 9)])
+            hist.append(['call', sets, rnd.random() < .2, rnd.randint(0, 9)] + ([rnd.choice(['patch', 'validate', 'deal', 'd', 'id', 'items', 'update'])] if rnd.random() < .35 else []))
         elif r < .9: hist.append(['static', rnd.randint(0, 9)])
         else: hist.append(['switch', rnd.random() < .5])
     sub = rnd.random() < .3
